@@ -271,3 +271,35 @@ func (w *World) methodsOf(pkgPath, recv string) []*ssa.Function {
 	sort.Slice(out, func(i, j int) bool { return out[i].Name() < out[j].Name() })
 	return out
 }
+
+// pureHelper: a module function with results that writes nothing (syntactic write keys empty)
+// is treated as a value-level function application in traces.
+func (w *World) pureHelper(fn *ssa.Function) bool {
+	if fn.Blocks == nil || !strings.HasPrefix(funcPkgPath(fn), modPath) {
+		return fn.Signature.Results().Len() > 0 && fn.Blocks == nil && false
+	}
+	if fn.Signature.Results().Len() == 0 {
+		return false
+	}
+	wk := w.writeKeys(fn)
+	for k := range wk {
+		if !strings.HasPrefix(k, "C:") {
+			return false
+		}
+	}
+	// must not call through interfaces or function values
+	for _, b := range fn.Blocks {
+		for _, in := range b.Instrs {
+			if c, ok := in.(ssa.CallInstruction); ok {
+				cc := c.Common()
+				if _, isB := cc.Value.(*ssa.Builtin); isB {
+					continue
+				}
+				if cc.IsInvoke() || cc.StaticCallee() == nil {
+					return false
+				}
+			}
+		}
+	}
+	return true
+}
